@@ -311,6 +311,16 @@ QueueBounded == Len(oq.q) <= cfg.Q
 HeldBounded == UFHeld(uf) <= cfg.held
 
 (***************************************************************************)
+(* Refinement: what the application and the file system see is a behaviour *)
+(* of the sequential contract FileContract.tla (writing part)              *)
+(***************************************************************************)
+ObjBytes == [i \in 1..NObjs |-> SumSeq(Obj(i).ops)]
+FC == INSTANCE FileContract WITH sizes <- ObjBytes, acc <- oq.p,   \* accepted = entered the queue
+                                 flushed <- SumSeq(fileOut), closed <- AllDone,
+                                 file <- <<>>, out <- <<>>, closing <- FALSE
+RefinesContract == FC!WriteSpec
+
+(***************************************************************************)
 (* M1 edge log                                                             *)
 (***************************************************************************)
 St(t) == IF pc[t] = "none" THEN "none"
